@@ -40,6 +40,7 @@ func runC13(c *Ctx) {
 	const r3 = "C13.R3 timeout forwarding versus router timer"
 	ruleTimeout(c, r3)
 	ruleTimerStoppedOnFinal(c, r3)
+	ruleOneTimerPerCall(c, r3)
 	c.R.Floor(r3, 18)
 }
 
@@ -63,7 +64,7 @@ func ruleTimeout(c *Ctx, r3 string) {
 	// a call with a positive timeout and a callee that does not take it over always gets the timer
 	c.Reach(r3, sCall, "router-handled timeout always arms the timer once the INVOCATION is sent", ReachSpec{
 		FromEdge: &ir.Clause{Name: "INVOCATION sent", Edges: []ir.EdgeSpec{T(`^\(select\{send:.*<-new\(wamp\.Invocation\);default\}#0 == 0\)$`)}},
-		Stop:     goTimer, Cut: []ir.Clause{clause("no router timeout", F(`^\(0 < (phi\(0\|`+tmo+`\)|`+tmo+`)\)$`))}, Target: "EXIT", Want: false})
+		Stop:     goTimer, Cut: []ir.Clause{clause("no router timeout", F(`^\(0 < (phi\(0\|`+tmo+`\)|`+tmo+`)\)$`)), clause("the call already has its timer (later message of a progressive call invocation)", F(`^\(phi\(.*\)\.timerCancel == nil\)$`))}, Target: "EXIT", Want: false})
 	t2 := sCall + "$1$1"
 	c.Has(r3, t2, "timer posts killnowait / wamp.error.timeout", `^call:router\.\(\*dealer\)\.syncCancel\(\^d, \^caller, new\(wamp\.Cancel\), "killnowait", "wamp\.error\.timeout", `, 1)
 	c.Guard(r3, sCall+"$1", "timer acts only on expiry", `^send:\^d\.actionChan<-`, 1,
